@@ -44,6 +44,7 @@ type Task struct {
 	Steps    int
 	blockedAt int // site at which the task is blocked (state tsBlocked)
 	FiredAt   time.Duration // timer-callback tasks: fake time at which the timer fired
+	StartEv   int64         // timer-callback tasks: event sequence number reached when the callback began to run
 	IsTimer   bool
 }
 
@@ -647,6 +648,9 @@ func TimerTask(site int, f func()) func() {
 	s.nextTimer++
 	id := s.nextTimer
 	fires := 0
+	// (formatted here, not in the callback's race-detector-off section: fmt recycles printers through a sync.Pool
+	// whose synchronisation events would be lost there and surface as false reports inside fmt)
+	name := fmt.Sprintf("timer%d@%s", id, SiteName(site))
 	return func() {
 		raceOff()
 		s.mu.Lock()
@@ -656,7 +660,7 @@ func TimerTask(site int, f func()) func() {
 			return
 		}
 		fires++
-		t := &Task{ID: -1, Name: fmt.Sprintf("timer%d@%s", id, SiteName(site)), resume: make(chan struct{}),
+		t := &Task{ID: -1, Name: name, resume: make(chan struct{}),
 			state: tsParked, site: site, timerKey: [2]int{id, fires}, gid: goid(), FiredAt: time.Since(s.start), IsTimer: true}
 		s.pendingNew = append(s.pendingNew, t)
 		s.mu.Unlock()
@@ -665,6 +669,7 @@ func TimerTask(site int, f func()) func() {
 		default:
 		}
 		<-t.resume
+		t.StartEv = s.EvSeq
 		raceOn()
 		defer s.taskExit(t)
 		f()
